@@ -168,4 +168,702 @@ theorem parseLoop_stop (rec : ExprRec) (p : Prec) (k : Nat) (rest : List Token) 
     intro h'
     exact absurd h' (Nat.not_lt.mpr h)
 
+
+/-! ## `primary` on each printed form -/
+
+theorem primary_address (rec : ExprRec) (name : List Char) (idx : Nat) (rest : List Token) :
+    primary rec (.identifier name :: .lBracket :: .integer idx :: .rBracket :: rest) =
+      .ok (.address ⟨str name, idx⟩) rest := by
+  rfl
+
+theorem primary_var (rec : ExprRec) (x : List Char) (rest : List Token) :
+    primary rec (.variable x :: rest) = .ok (.var (str x)) rest := by
+  rfl
+
+theorem memRefBrackets_err (name : List Char) (rest : List Token)
+    (h : ∀ r, rest ≠ .lBracket :: r) :
+    parseMemoryReferenceWithBrackets (.identifier name :: rest) = .err := by
+  cases rest with
+  | nil => rfl
+  | cons t r =>
+    cases t <;> first | rfl | exact absurd rfl (h r)
+
+theorem primary_pi (rec : ExprRec) (rest : List Token) (h : tailOk rest = true) :
+    primary rec (tokPi :: rest) = .ok .pi rest := by
+  have hb : ∀ r, rest ≠ .lBracket :: r := by
+    intro r hr; subst hr; simp [tailOk] at h
+  have h1 : opt parseImmediateValue (tokPi :: rest) = .ok none (tokPi :: rest) :=
+    optImmediate_none _ _ (by intro n; simp [tokPi]) (by intro b; simp [tokPi])
+  unfold primary
+  rw [h1]
+  simp only [tokPi]
+  unfold parseExpressionIdentifier
+  rw [opt_err (memRefBrackets_err _ _ hb)]
+  rfl
+
+
+theorem exprIdent_fn (rec : ExprRec) (f : ExprFn) (ts : List Token) :
+    parseExpressionIdentifier rec (.identifier (fnName f) :: .lParenthesis :: ts) =
+      parseFunctionCall rec f (.lParenthesis :: ts) := by
+  cases f <;> rfl
+
+theorem functionCall_ok (rec : ExprRec) (f : ExprFn) (ts r : List Token) (e : PExpr)
+    (h : rec ts Prec.lowest = .ok e (.rParenthesis :: r)) :
+    parseFunctionCall rec f (.lParenthesis :: ts) = .ok (.call f e) r := by
+  simp [parseFunctionCall, bind, Parser.bind, tok, h, pure, Parser.pure]
+
+theorem primary_call (rec : ExprRec) (f : ExprFn) (ts r : List Token) (e : PExpr)
+    (h : rec ts Prec.lowest = .ok e (.rParenthesis :: r)) :
+    primary rec (.identifier (fnName f) :: .lParenthesis :: ts) = .ok (.call f e) r := by
+  have h1 : opt parseImmediateValue (.identifier (fnName f) :: .lParenthesis :: ts) =
+      .ok none (.identifier (fnName f) :: .lParenthesis :: ts) :=
+    optImmediate_none _ _ (by intro n; simp) (by intro b; simp)
+  unfold primary
+  rw [h1]
+  simp only
+  rw [exprIdent_fn, functionCall_ok rec f ts r e h]
+
+theorem primary_grouped (rec : ExprRec) (ts r : List Token) (e : PExpr)
+    (h : rec ts Prec.lowest = .ok e (.rParenthesis :: r)) :
+    primary rec (.lParenthesis :: ts) = .ok e r := by
+  have h1 : opt parseImmediateValue (.lParenthesis :: ts) = .ok none (.lParenthesis :: ts) :=
+    optImmediate_none _ _ (by intro n; simp) (by intro b; simp)
+  unfold primary
+  rw [h1]
+  simp [parseGroupedExpression, h]
+
+
+theorem tokBits_ne_minus {t : Token} {m : Nat} (h : tokBits t = some m) : t ≠ .operator .minus := by
+  intro ht; subst ht; simp [tokBits] at h
+
+theorem tokBits_not_num {t : Token} {m : Nat} (h : tokBits t = some m) :
+    (∃ n, t = .integer n) ∨ (∃ b, t = .float b) := by
+  cases t <;> simp [tokBits] at h <;> simp
+
+theorem primary_real (rec : ExprRec) {t : Token} {m : Nat} {rest : List Token}
+    (ht : tokBits t = some m) (hr : tailOk rest = true) :
+    primary rec (t :: rest) = .ok (.number (CBits.real m)) rest := by
+  unfold primary; rw [optImmediate_real ht hr]
+
+theorem primary_imag (rec : ExprRec) {t : Token} {m : Nat} {rest : List Token}
+    (ht : tokBits t = some m) :
+    primary rec (t :: tokI :: rest) = .ok (.number (CBits.imag m)) rest := by
+  unfold primary; rw [optImmediate_imag ht]
+
+/-! ## one step of the operator loop -/
+
+theorem parseLoop_stop' (rec : ExprRec) (p : Prec) (k : Nat) (rest : List Token) (left : PExpr)
+    (hk : 0 < k) (h : stopsAt p rest = true) : parseLoop rec p k rest left = .ok left rest := by
+  cases k with
+  | zero => omega
+  | succ k => exact parseLoop_stop rec p k rest left h
+
+theorem parseLoop_step (rec : ExprRec) (p : Prec) (k : Nat) (o : Operator) (ts rest : List Token)
+    (left right : PExpr) (hp : p < precOfOperator o)
+    (h : rec ts (precOfOperator o) = .ok right rest) :
+    parseLoop rec p (k + 1) (.operator o :: ts) left =
+      parseLoop rec p k rest (.bin left (infixOfOperator o) right) := by
+  conv => lhs; unfold parseLoop
+  simp [getPrecedence, precOfToken, hp, parseInfix, h]
+
+theorem infixOfOperator_opOf (o : InfixOp) : infixOfOperator (opOf o) = o := by cases o <;> rfl
+
+theorem lowest_lt_prec (o : Operator) : Prec.lowest < precOfOperator o := by
+  cases o <;> decide
+
+
+/-! ## the induction: what is proved of every expression -/
+
+/-- the operand (as written by `format_inner_expression`) read by the part of `parse` between the prefix
+operator and the operator loop: either it does not begin with a minus sign and is read as `norm e`, or it
+is a minus sign followed by something read as `e0` with `norm e = -e0` -/
+structure Prims (F : NumFmt) (e : PExpr) : Prop where
+  unsigned : startsWithMinus e = false →
+    (∃ t ts, inner F e = t :: ts ∧ t ≠ .operator .minus) ∧
+    ∀ d rest, (inner F e).length ≤ d → tailOk rest = true →
+      primary (parse d) (inner F e ++ rest) = .ok (norm e) rest
+  signed : startsWithMinus e = true →
+    ∃ body e0, inner F e = .operator .minus :: body ∧ norm e = .pre .minus e0 ∧
+      ∀ d rest, (inner F e).length ≤ d → tailOk rest = true →
+        primary (parse d) (body ++ rest) = .ok e0 rest
+
+/-- the expression as written by `Expression::write`, read by `parse_expression` -/
+def Top (F : NumFmt) (e : PExpr) : Prop :=
+  ∀ d rest, (printTop F e).length ≤ d → endOk rest = true →
+    parse (d + 1) (printTop F e ++ rest) Prec.lowest = .ok (norm e) rest
+
+/-- an operand followed by anything `tailOk`: `parse` reads exactly the operand, then enters the operator
+loop with `norm e` on its left -/
+theorem Prims.operand {F : NumFmt} {e : PExpr} (h : Prims F e) (d : Nat) (rest : List Token) (p : Prec)
+    (hd : (inner F e).length ≤ d) (ht : tailOk rest = true) :
+    parse (d + 1) (inner F e ++ rest) p = parseLoop (parse d) p (rest.length + 1) rest (norm e) := by
+  show parseBody (parse d) (inner F e ++ rest) p = _
+  rw [parseBody_eq]
+  cases hs : startsWithMinus e with
+  | false =>
+    obtain ⟨⟨t, ts, hts, hne⟩, hp⟩ := h.unsigned hs
+    have h2 := hp d rest hd ht
+    rw [hts] at h2 ⊢
+    simp only [List.cons_append] at h2 ⊢
+    rw [optPrefix_other _ _ hne]
+    simp only
+    rw [h2]
+  | true =>
+    obtain ⟨body, e0, hb, hn, hp⟩ := h.signed hs
+    have h2 := hp d rest hd ht
+    rw [hb]
+    simp only [List.cons_append]
+    rw [optPrefix_minus]
+    simp only
+    rw [h2, hn]
+
+/-- the operand form at any precedence `p`: exactly the operand is consumed when the rest does not begin
+with an operator binding tighter than `p` -/
+theorem Prims.parse_inner {F : NumFmt} {e : PExpr} (h : Prims F e) (d : Nat) (rest : List Token) (p : Prec)
+    (hd : (inner F e).length ≤ d) (ht : tailOk rest = true) (hs : stopsAt p rest = true) :
+    parse (d + 1) (inner F e ++ rest) p = .ok (norm e) rest := by
+  rw [h.operand d rest p hd ht, parseLoop_stop _ _ _ _ _ hs]
+
+theorem inner_of_not_needsParens (F : NumFmt) {e : PExpr} (h : needsParens e = false) :
+    inner F e = printTop F e := by
+  simp [inner, wrapIf, h]
+
+theorem inner_of_needsParens (F : NumFmt) {e : PExpr} (h : needsParens e = true) :
+    inner F e = .lParenthesis :: (printTop F e ++ [.rParenthesis]) := by
+  simp [inner, wrapIf, h]
+
+theorem Prims.top {F : NumFmt} {e : PExpr} (h : Prims F e) (hn : needsParens e = false) : Top F e := by
+  intro d rest hd he
+  rw [← inner_of_not_needsParens F hn] at hd ⊢
+  exact h.parse_inner d rest _ hd (endOk_tailOk he) (endOk_stopsAt _ he)
+
+/-- a parenthesised operand -/
+theorem Top.prims {F : NumFmt} {e : PExpr} (h : Top F e) (hn : needsParens e = true)
+    (hs : startsWithMinus e = false) : Prims F e := by
+  have hi := inner_of_needsParens F hn
+  constructor
+  · intro _
+    refine ⟨⟨_, _, hi, by simp⟩, ?_⟩
+    intro d rest hd ht
+    rw [hi] at hd ⊢
+    simp only [List.length_cons, List.length_append, List.length_nil] at hd
+    obtain ⟨d', rfl⟩ : ∃ d', d = d' + 1 := ⟨d - 1, by omega⟩
+    have h2 := h d' (.rParenthesis :: rest) (by omega) rfl
+    simp only [List.cons_append, List.append_assoc, List.nil_append]
+    exact primary_grouped _ _ _ _ h2
+  · intro h'; rw [hs] at h'; cases h'
+
+
+/-! ## the constructors without numbers -/
+
+theorem str_toList (x : String) : str x.toList = x := by simp [str]
+
+theorem prims_address (F : NumFmt) (r : MemRef) : Prims F (.address r) := by
+  constructor
+  · intro _
+    refine ⟨⟨_, _, rfl, by simp⟩, ?_⟩
+    intro d rest _ _
+    show primary _ (.identifier r.name.toList :: .lBracket :: .integer r.index :: .rBracket :: rest) = _
+    rw [primary_address, str_toList]; rfl
+  · intro h; cases h
+
+theorem prims_pi (F : NumFmt) : Prims F .pi := by
+  constructor
+  · intro _
+    refine ⟨⟨_, _, rfl, by simp [tokPi]⟩, ?_⟩
+    intro d rest _ ht
+    show primary _ (tokPi :: rest) = _
+    rw [primary_pi _ _ ht]; rfl
+  · intro h; cases h
+
+theorem prims_var (F : NumFmt) (x : String) : Prims F (.var x) := by
+  constructor
+  · intro _
+    refine ⟨⟨_, _, rfl, by simp⟩, ?_⟩
+    intro d rest _ _
+    show primary _ (.variable x.toList :: rest) = _
+    rw [primary_var, str_toList]; rfl
+  · intro h; cases h
+
+theorem prims_call (F : NumFmt) (f : ExprFn) (x : PExpr) (hx : Top F x) : Prims F (.call f x) := by
+  have hi : inner F (.call f x) = .identifier (fnName f) :: .lParenthesis :: (printTop F x ++ [.rParenthesis]) := rfl
+  constructor
+  · intro _
+    refine ⟨⟨_, _, hi, by simp⟩, ?_⟩
+    intro d rest hd _
+    rw [hi] at hd ⊢
+    simp only [List.length_cons, List.length_append, List.length_nil] at hd
+    obtain ⟨d', rfl⟩ : ∃ d', d = d' + 1 := ⟨d - 1, by omega⟩
+    have h2 := hx d' (.rParenthesis :: rest) (by omega) rfl
+    simp only [List.cons_append, List.append_assoc, List.nil_append]
+    exact primary_call _ _ _ _ _ h2
+  · intro h; cases h
+
+theorem top_bin (F : NumFmt) (l : PExpr) (o : InfixOp) (r : PExpr) (hl : Prims F l) (hr : Prims F r) :
+    Top F (.bin l o r) := by
+  intro d rest hd he
+  have hp : printTop F (.bin l o r) = inner F l ++ .operator (opOf o) :: inner F r := rfl
+  rw [hp] at hd ⊢
+  simp only [List.length_cons, List.length_append] at hd
+  simp only [List.append_assoc, List.cons_append]
+  rw [hl.operand d _ _ (by omega) rfl]
+  obtain ⟨d', rfl⟩ : ∃ d', d = d' + 1 := ⟨d - 1, by omega⟩
+  have h2 := hr.parse_inner d' rest (precOfOperator (opOf o)) (by omega) (endOk_tailOk he)
+    (endOk_stopsAt _ he)
+  simp only [List.length_cons]
+  rw [parseLoop_step _ _ _ _ _ _ _ _ (lowest_lt_prec _) h2, infixOfOperator_opOf]
+  exact parseLoop_stop' _ _ _ _ _ (by simp) (endOk_stopsAt _ he)
+
+
+theorem wrapIf_true (ts : List Token) : wrapIf true ts = .lParenthesis :: (ts ++ [.rParenthesis]) := rfl
+theorem wrapIf_false (ts : List Token) : wrapIf false ts = ts := rfl
+
+theorem inner_prePlus (F : NumFmt) (x : PExpr) : inner F (.pre .plus x) = inner F x := by
+  simp [inner, needsParens, printTop, prefixToks, wrapIf]
+
+theorem inner_preMinus (F : NumFmt) (x : PExpr) :
+    inner F (.pre .minus x) = .operator .minus :: wrapIf (startsWithMinus x) (inner F x) := by
+  simp [inner, needsParens, printTop, prefixToks, wrapIf]
+
+theorem prims_prePlus (F : NumFmt) (x : PExpr) (hx : Prims F x) : Prims F (.pre .plus x) := by
+  have hn : norm (.pre .plus x) = norm x := by simp [norm]
+  have hs' : startsWithMinus (.pre .plus x) = startsWithMinus x := by simp [startsWithMinus]
+  constructor
+  · intro hs
+    rw [hs'] at hs
+    rw [inner_prePlus, hn]
+    exact hx.unsigned hs
+  · intro hs
+    rw [hs'] at hs
+    rw [inner_prePlus, hn]
+    exact hx.signed hs
+
+theorem prims_preMinus (F : NumFmt) (x : PExpr) (hx : Prims F x) : Prims F (.pre .minus x) := by
+  constructor
+  · intro hs; simp [startsWithMinus] at hs
+  · intro _
+    refine ⟨_, norm x, inner_preMinus F x, by simp [norm], ?_⟩
+    intro d rest hd ht
+    rw [inner_preMinus] at hd
+    cases hs : startsWithMinus x with
+    | false =>
+      simp only [hs, wrapIf_false, List.length_cons] at hd ⊢
+      exact (hx.unsigned hs).2 d rest (by omega) ht
+    | true =>
+      simp only [hs, wrapIf_true, List.length_cons, List.length_append, List.length_nil] at hd ⊢
+      obtain ⟨d', rfl⟩ : ∃ d', d = d' + 1 := ⟨d - 1, by omega⟩
+      have h2 := hx.parse_inner d' (.rParenthesis :: rest) Prec.lowest (by omega) rfl rfl
+      simp only [List.cons_append, List.append_assoc, List.nil_append]
+      exact primary_grouped _ _ _ _ h2
+
+
+/-! ## numbers -/
+
+/-- a plain double (finite, not `-0.0`) is `+0.0`, positive or negative; what each test of
+`format_complex` / `starts_with_minus` answers in each case -/
+theorem plain_cases (b : Nat) (h : plainBits b = true) :
+    (b = 0 ∧ fZero b = true ∧ fSign b = false ∧ fLtZero b = false ∧ fAbs b = 0) ∨
+    (fZero b = false ∧ fSign b = false ∧ fGtZero b = true ∧ fLtZero b = false ∧ fAbs b = b) ∨
+    (fZero b = false ∧ fSign b = true ∧ fGtZero b = false ∧ fLtZero b = true ∧ fAbs b = b - two63) := by
+  have h63 : two63 = 9223372036854775808 := rfl
+  have h64 : two64 = 18446744073709551616 := rfl
+  have hi : infBits = 9218868437227405312 := rfl
+  have hn : negInfBits = 18442240474082181120 := rfl
+  simp [plainBits, fZero, fSign, fGtZero, fLtZero, fAbs] at h ⊢
+  simp only [h63, h64, hi, hn] at h ⊢
+  by_cases h0 : b = 0
+  · left; subst h0; simp
+  · by_cases hs : 9223372036854775808 ≤ b
+    · right; right
+      simp only [hs]
+      and_intros <;> first | trivial | omega | (intro h'; first | cases h' | omega)
+    · right; left
+      simp only [hs]
+      and_intros <;> first | trivial | omega | (intro h'; first | cases h' | omega)
+
+theorem ofNat_zero : QV.DecF64.ofNat 0 = 0 := by decide
+
+/-- a literal that is not printed as a sum: zero, real only, imaginary only -/
+theorem prims_number_simple (F : NumFmt) (z : CBits)
+    (hre : plainBits z.re = true) (him : plainBits z.im = true) (hn : numTokOkAt F z = true)
+    (hs : isPrintedAsInfix z = false) : Prims F (.number z) := by
+  obtain ⟨re, im⟩ := z
+  simp only [numTokOkAt, Bool.and_eq_true, beq_iff_eq] at hn
+  obtain ⟨hR, hI⟩ := hn
+  simp only at hre him hR hI
+  rcases plain_cases re hre with ⟨rfl, r1, r2, r3, r4⟩ | ⟨r1, r2, r3, r4, r5⟩ | ⟨r1, r2, r3, r4, r5⟩ <;>
+  rcases plain_cases im him with ⟨rfl, i1, i2, i3, i4⟩ | ⟨i1, i2, i3, i4, i5⟩ | ⟨i1, i2, i3, i4, i5⟩ <;>
+  simp only [isPrintedAsInfix, r1, i1, Bool.not_true, Bool.not_false, Bool.and_self, Bool.and_false,
+    Bool.false_and, reduceCtorEq] at hs
+  · -- zero
+    have hin : inner F (.number ⟨0, 0⟩) = [.integer 0] := by
+      simp [inner, needsParens, isPrintedAsInfix, printTop, complexToks, wrapIf, r1]
+    have hno : norm (.number ⟨0, 0⟩) = .number ⟨0, 0⟩ := by simp [norm, numTree, r1]
+    have hsw : startsWithMinus (.number ⟨0, 0⟩) = false := by
+      simp [startsWithMinus, isPrintedAsInfix, r1, r3]
+    constructor
+    · intro _
+      rw [hin, hno]
+      refine ⟨⟨_, _, rfl, by simp⟩, ?_⟩
+      intro d rest _ ht
+      have h1 : tokBits (.integer 0) = some 0 := by simp [tokBits, ofNat_zero]
+      exact primary_real _ h1 ht
+    · intro h; rw [hsw] at h; cases h
+  · -- imaginary only, positive
+    have hin : inner F (.number ⟨0, im⟩) = [F.imag im, tokI] := by
+      simp [inner, needsParens, isPrintedAsInfix, printTop, complexToks, signedToks, wrapIf, r1, i1, i2]
+    have hno : norm (.number ⟨0, im⟩) = .number ⟨0, im⟩ := by simp [norm, numTree, r1, i1, i2]
+    have hsw : startsWithMinus (.number ⟨0, im⟩) = false := by
+      simp [startsWithMinus, isPrintedAsInfix, r1, i1, i4]
+    rw [i5] at hI
+    constructor
+    · intro _
+      rw [hin, hno]
+      refine ⟨⟨_, _, rfl, tokBits_ne_minus hI⟩, ?_⟩
+      intro d rest _ _
+      exact primary_imag _ hI
+    · intro h; rw [hsw] at h; cases h
+  · -- imaginary only, negative
+    have hin : inner F (.number ⟨0, im⟩) = [.operator .minus, F.imag (im - two63), tokI] := by
+      simp [inner, needsParens, isPrintedAsInfix, printTop, complexToks, signedToks, wrapIf, r1, i1, i2]
+    have hno : norm (.number ⟨0, im⟩) = .pre .minus (.number ⟨0, im - two63⟩) := by
+      simp [norm, numTree, r1, i1, i2]
+    rw [i5] at hI
+    constructor
+    · intro h; simp [startsWithMinus, isPrintedAsInfix, r1, i1, i4] at h
+    · intro _
+      refine ⟨_, _, hin, hno, ?_⟩
+      intro d rest _ _
+      exact primary_imag _ hI
+  · -- real only, positive
+    have hin : inner F (.number ⟨re, 0⟩) = [F.real re] := by
+      simp [inner, needsParens, isPrintedAsInfix, printTop, complexToks, signedToks, wrapIf, r1, i1, r2]
+    have hno : norm (.number ⟨re, 0⟩) = .number ⟨re, 0⟩ := by simp [norm, numTree, r1, i1, r2]
+    have hsw : startsWithMinus (.number ⟨re, 0⟩) = false := by
+      simp [startsWithMinus, isPrintedAsInfix, r1, i1, r4]
+    rw [r5] at hR
+    constructor
+    · intro _
+      rw [hin, hno]
+      refine ⟨⟨_, _, rfl, tokBits_ne_minus hR⟩, ?_⟩
+      intro d rest _ ht
+      exact primary_real _ hR ht
+    · intro h; rw [hsw] at h; cases h
+  · -- real only, negative
+    have hin : inner F (.number ⟨re, 0⟩) = [.operator .minus, F.real (re - two63)] := by
+      simp [inner, needsParens, isPrintedAsInfix, printTop, complexToks, signedToks, wrapIf, r1, i1, r2]
+    have hno : norm (.number ⟨re, 0⟩) = .pre .minus (.number ⟨re - two63, 0⟩) := by
+      simp [norm, numTree, r1, i1, r2]
+    rw [r5] at hR
+    constructor
+    · intro h; simp [startsWithMinus, isPrintedAsInfix, r1, i1, r4] at h
+    · intro _
+      refine ⟨_, _, hin, hno, ?_⟩
+      intro d rest _ ht
+      exact primary_real _ hR ht
+
+
+/-- the operator loop on `(+|-) IMAG i`: the imaginary part of a literal printed as a sum -/
+theorem parseLoop_opImag (d k : Nat) (o : Operator) (I : Token) (m : Nat) (rest : List Token) (left : PExpr)
+    (hI : tokBits I = some m) (hk : 0 < k) (he : endOk rest = true) :
+    parseLoop (parse (d + 1)) Prec.lowest (k + 1) (.operator o :: I :: tokI :: rest) left =
+      .ok (.bin left (infixOfOperator o) (.number (CBits.imag m))) rest := by
+  have h2 : parse (d + 1) (I :: tokI :: rest) (precOfOperator o) = .ok (.number (CBits.imag m)) rest := by
+    show parseBody (parse d) _ _ = _
+    rw [parseBody_eq, optPrefix_other _ _ (tokBits_ne_minus hI)]
+    simp only
+    rw [primary_imag _ hI]
+    simp only
+    exact parseLoop_stop _ _ _ _ _ (endOk_stopsAt _ he)
+  rw [parseLoop_step _ _ _ _ _ _ _ _ (lowest_lt_prec o) h2]
+  exact parseLoop_stop' _ _ _ _ _ hk (endOk_stopsAt _ he)
+
+/-- `[-] REAL (+|-) IMAG i` read by `parse_expression` -/
+theorem parse_complex_sum (d : Nat) (neg : Bool) (R I : Token) (mr mi : Nat) (o : Operator) (rest : List Token)
+    (hR : tokBits R = some mr) (hI : tokBits I = some mi) (he : endOk rest = true) :
+    parse (d + 2) ((if neg then [.operator .minus] else []) ++ R :: .operator o :: I :: tokI :: rest)
+        Prec.lowest =
+      .ok (.bin (if neg then .pre .minus (.number (CBits.real mr)) else .number (CBits.real mr))
+        (infixOfOperator o) (.number (CBits.imag mi))) rest := by
+  show parseBody (parse (d + 1)) _ _ = _
+  rw [parseBody_eq]
+  cases neg with
+  | false =>
+    simp only [Bool.false_eq_true, if_false, List.nil_append]
+    rw [optPrefix_other _ _ (tokBits_ne_minus hR)]
+    simp only
+    rw [primary_real _ hR rfl]
+    simp only [List.length_cons]
+    exact parseLoop_opImag d _ o I mi rest _ hI (by omega) he
+  | true =>
+    simp only [if_true, List.cons_append, List.nil_append]
+    rw [optPrefix_minus]
+    simp only
+    rw [primary_real _ hR rfl]
+    simp only [List.length_cons]
+    exact parseLoop_opImag d _ o I mi rest _ hI (by omega) he
+
+
+/-- a literal printed as a sum or difference of its parts -/
+theorem top_number_infix (F : NumFmt) (z : CBits)
+    (hre : plainBits z.re = true) (him : plainBits z.im = true) (hn : numTokOkAt F z = true)
+    (hs : isPrintedAsInfix z = true) : Top F (.number z) := by
+  obtain ⟨re, im⟩ := z
+  simp only [numTokOkAt, Bool.and_eq_true, beq_iff_eq] at hn
+  obtain ⟨hR, hI⟩ := hn
+  simp only at hre him hR hI
+  rcases plain_cases re hre with ⟨rfl, r1, r2, r3, r4⟩ | ⟨r1, r2, r3, r4, r5⟩ | ⟨r1, r2, r3, r4, r5⟩ <;>
+  rcases plain_cases im him with ⟨rfl, i1, i2, i3, i4⟩ | ⟨i1, i2, i3, i4, i5⟩ | ⟨i1, i2, i3, i4, i5⟩ <;>
+  simp only [isPrintedAsInfix, r1, i1, Bool.not_true, Bool.not_false, Bool.and_self, Bool.and_false,
+    Bool.false_and, reduceCtorEq] at hs
+  all_goals (rw [r5] at hR; rw [i5] at hI; intro d rest hd he)
+  · have hp : printTop F (.number ⟨re, im⟩) = [F.real re, .operator .plus, F.imag im, tokI] := by
+      simp [printTop, complexToks, signedToks, r1, i1, r2, i2, i3]
+    have hno : norm (.number ⟨re, im⟩) = .bin (.number ⟨re, 0⟩) .plus (.number ⟨0, im⟩) := by
+      simp [norm, numTree, r1, i1, r2, i3]
+    rw [hp] at hd ⊢; rw [hno]
+    simp only [List.length_cons, List.length_nil] at hd
+    obtain ⟨d', rfl⟩ : ∃ d', d = d' + 1 := ⟨d - 1, by omega⟩
+    exact parse_complex_sum d' false _ _ _ _ .plus rest hR hI he
+  · have hp : printTop F (.number ⟨re, im⟩) = [F.real re, .operator .minus, F.imag (im - two63), tokI] := by
+      simp [printTop, complexToks, signedToks, r1, i1, r2, i2, i3]
+    have hno : norm (.number ⟨re, im⟩) = .bin (.number ⟨re, 0⟩) .minus (.number ⟨0, im - two63⟩) := by
+      simp [norm, numTree, r1, i1, r2, i3, i5]
+    rw [hp] at hd ⊢; rw [hno]
+    simp only [List.length_cons, List.length_nil] at hd
+    obtain ⟨d', rfl⟩ : ∃ d', d = d' + 1 := ⟨d - 1, by omega⟩
+    exact parse_complex_sum d' false _ _ _ _ .minus rest hR hI he
+  · have hp : printTop F (.number ⟨re, im⟩) =
+        [.operator .minus, F.real (re - two63), .operator .plus, F.imag im, tokI] := by
+      simp [printTop, complexToks, signedToks, r1, i1, r2, i2, i3]
+    have hno : norm (.number ⟨re, im⟩) =
+        .bin (.pre .minus (.number ⟨re - two63, 0⟩)) .plus (.number ⟨0, im⟩) := by
+      simp [norm, numTree, r1, i1, r2, i3]
+    rw [hp] at hd ⊢; rw [hno]
+    simp only [List.length_cons, List.length_nil] at hd
+    obtain ⟨d', rfl⟩ : ∃ d', d = d' + 1 := ⟨d - 1, by omega⟩
+    exact parse_complex_sum d' true _ _ _ _ .plus rest hR hI he
+  · have hp : printTop F (.number ⟨re, im⟩) =
+        [.operator .minus, F.real (re - two63), .operator .minus, F.imag (im - two63), tokI] := by
+      simp [printTop, complexToks, signedToks, r1, i1, r2, i2, i3]
+    have hno : norm (.number ⟨re, im⟩) =
+        .bin (.pre .minus (.number ⟨re - two63, 0⟩)) .minus (.number ⟨0, im - two63⟩) := by
+      simp [norm, numTree, r1, i1, r2, i3, i5]
+    rw [hp] at hd ⊢; rw [hno]
+    simp only [List.length_cons, List.length_nil] at hd
+    obtain ⟨d', rfl⟩ : ∃ d', d = d' + 1 := ⟨d - 1, by omega⟩
+    exact parse_complex_sum d' true _ _ _ _ .minus rest hR hI he
+
+
+/-! ## the induction -/
+
+theorem roundtrip (F : NumFmt) : ∀ e : PExpr, finiteLits e = true → numTokOk F e = true →
+    Prims F e ∧ Top F e := by
+  intro e
+  induction e with
+  | address r => intro _ _; exact ⟨prims_address F r, (prims_address F r).top rfl⟩
+  | call f x ih =>
+    intro hf hn
+    have hx := ih (by simpa [finiteLits, allLits] using hf) (by simpa [numTokOk, allLits] using hn)
+    have hp := prims_call F f x hx.2
+    exact ⟨hp, hp.top rfl⟩
+  | bin l o r ihl ihr =>
+    intro hf hn
+    simp only [finiteLits, numTokOk, allLits, Bool.and_eq_true] at hf hn
+    have hl := ihl hf.1 hn.1
+    have hr := ihr hf.2 hn.2
+    have ht := top_bin F l o r hl.1 hr.1
+    exact ⟨ht.prims rfl rfl, ht⟩
+  | number z =>
+    intro hf hn
+    simp only [finiteLits, numTokOk, allLits, Bool.and_eq_true] at hf hn
+    cases hs : isPrintedAsInfix z with
+    | false =>
+      have hp := prims_number_simple F z hf.1 hf.2 hn hs
+      exact ⟨hp, hp.top (by simp [needsParens, hs])⟩
+    | true =>
+      have ht := top_number_infix F z hf.1 hf.2 hn hs
+      exact ⟨ht.prims (by simp [needsParens, hs]) (by simp [startsWithMinus, hs]), ht⟩
+  | pi => intro _ _; exact ⟨prims_pi F, (prims_pi F).top rfl⟩
+  | pre op x ih =>
+    intro hf hn
+    have hx := ih (by simpa [finiteLits, allLits] using hf) (by simpa [numTokOk, allLits] using hn)
+    cases op with
+    | plus => have hp := prims_prePlus F x hx.1; exact ⟨hp, hp.top rfl⟩
+    | minus => have hp := prims_preMinus F x hx.1; exact ⟨hp, hp.top rfl⟩
+  | var x => intro _ _; exact ⟨prims_var F x, (prims_var F x).top rfl⟩
+
+/-! ## the round-trip theorems (every expression tree, any depth) -/
+
+/-- **Print, then `parse_expression`, with a tail.**  The tokens `Expression::write` produces for `e`,
+followed by any `rest` that `endOk` (not an operator, not the identifier `i`, not `[`), parse back — at any
+depth budget exceeding the number of printed tokens — to exactly `norm e`, leaving exactly `rest`. -/
+theorem parse_printTop (F : NumFmt) (e : PExpr) (hf : finiteLits e = true) (hn : numTokOk F e = true)
+    (d : Nat) (rest : List Token) (hd : (printTop F e).length ≤ d) (he : endOk rest = true) :
+    parse (d + 1) (printTop F e ++ rest) Prec.lowest = .ok (norm e) rest :=
+  (roundtrip F e hf hn).2 d rest hd he
+
+/-- the same for `parseExpressionAt` (`parse_expression`) -/
+theorem parseExpressionAt_printTop (F : NumFmt) (e : PExpr) (hf : finiteLits e = true)
+    (hn : numTokOk F e = true) (d : Nat) (rest : List Token) (hd : (printTop F e).length < d)
+    (he : endOk rest = true) :
+    parseExpressionAt d (printTop F e ++ rest) = .ok (norm e) rest := by
+  obtain ⟨d', rfl⟩ : ∃ d', d = d' + 1 := ⟨d - 1, by omega⟩
+  exact parse_printTop F e hf hn d' rest (by omega) he
+
+/-- **Operand form, any precedence.**  What `format_inner_expression` writes for `e`, followed by a `rest`
+that is `tailOk` and does not begin with an operator binding tighter than `p`, is read by `parse` at
+precedence `p` as exactly `norm e`, leaving exactly `rest`. -/
+theorem parse_inner (F : NumFmt) (e : PExpr) (hf : finiteLits e = true) (hn : numTokOk F e = true)
+    (d : Nat) (rest : List Token) (p : Prec) (hd : (inner F e).length ≤ d) (ht : tailOk rest = true)
+    (hs : stopsAt p rest = true) :
+    parse (d + 1) (inner F e ++ rest) p = .ok (norm e) rest :=
+  (roundtrip F e hf hn).1.parse_inner d rest p hd ht hs
+
+/-- the entry point `parse_expression` with the budget the `FromStr` impl uses, nothing following -/
+theorem parseExpression_printTop (F : NumFmt) (e : PExpr) (hf : finiteLits e = true)
+    (hn : numTokOk F e = true) : parseExpression (printTop F e) = .ok (norm e) [] := by
+  have h := parse_printTop F e hf hn (printTop F e).length [] (Nat.le_refl _) rfl
+  simpa [parseExpression, parseExpressionAt, budget] using h
+
+/-- `Expression::from_str` after lexing: no left-over tokens, so `disallow_leftover` passes -/
+theorem parseExpressionStr_printTop (F : NumFmt) (e : PExpr) (hf : finiteLits e = true)
+    (hn : numTokOk F e = true) : parseExpressionStr (printTop F e) = .ok (norm e) [] := by
+  simp [parseExpressionStr, parseExpression_printTop F e hf hn, disallowLeftover]
+
+
+/-! ## values: the re-parsed tree denotes what the original denotes
+
+Expressions carry bit patterns; their value in a scalar type `K` is given through a denotation
+`den : CBits → K` of literals.  The only places where `norm e` differs from `e` in a way that matters for
+evaluation are literals (`numTree`); the few facts relating the denotation of a literal to the denotations
+of its parts are the `LitLaws`.  They hold in exact arithmetic (`QV.C03`: an instance over the Gaussian
+integers) and, bit for bit, for IEEE doubles with `negate(x) = 0 - x` (checked by the C03 driver on every
+literal of every generated case). -/
+
+/-- evaluation of a bit-pattern expression through a denotation of its literals -/
+def evalP {K : Type} [Scalar K] (den : CBits → K) (ρ : VarEnv K) (μ : MemEnv K) (e : PExpr) :
+    Except EvalError K :=
+  eval ρ μ (e.mapNum den)
+
+/-- how the denotation of a literal relates to the denotations of its parts (`x`, `y` range over plain
+doubles: finite, not `-0.0`) -/
+structure LitLaws (K : Type) [Scalar K] (den : CBits → K) : Prop where
+  /-- `-x` is `negate(x)`: a negative real literal -/
+  negRe : ∀ b, plainBits b = true → two63 < b → den ⟨b, 0⟩ = Scalar.neg (den ⟨b - two63, 0⟩)
+  /-- a negative imaginary literal -/
+  negIm : ∀ b, plainBits b = true → two63 < b → den ⟨0, b⟩ = Scalar.neg (den ⟨0, b - two63⟩)
+  /-- `x+yi` is `x + (yi)` -/
+  addIm : ∀ re im, plainBits re = true → plainBits im = true → re ≠ 0 → 0 < im → im < two63 →
+    den ⟨re, im⟩ = Scalar.add (den ⟨re, 0⟩) (den ⟨0, im⟩)
+  /-- `x-yi` is `x - (yi)` -/
+  subIm : ∀ re im, plainBits re = true → plainBits im = true → re ≠ 0 → two63 < im →
+    den ⟨re, im⟩ = Scalar.sub (den ⟨re, 0⟩) (den ⟨0, im - two63⟩)
+
+theorem plain_pos_or_neg (b : Nat) (h : plainBits b = true) (h0 : b ≠ 0) :
+    (0 < b ∧ b < two63 ∧ fSign b = false) ∨ (two63 < b ∧ fSign b = true) := by
+  have h63 : two63 = 9223372036854775808 := rfl
+  simp [plainBits, fSign] at h ⊢
+  simp only [h63] at h ⊢
+  omega
+
+section Values
+variable {K : Type} [Scalar K] {den : CBits → K}
+
+/-- the tree a literal parses back to evaluates to the literal -/
+theorem eval_numTree (L : LitLaws K den) (ρ : VarEnv K) (μ : MemEnv K) (z : CBits)
+    (hre : plainBits z.re = true) (him : plainBits z.im = true) :
+    evalP den ρ μ (numTree z) = .ok (den z) := by
+  obtain ⟨re, im⟩ := z
+  simp only at hre him
+  have hreT : evalP den ρ μ (if fSign re then .pre .minus (.number ⟨re - two63, 0⟩) else .number ⟨re, 0⟩)
+      = .ok (den ⟨re, 0⟩) := by
+    by_cases h0 : re = 0
+    · subst h0; rfl
+    · rcases plain_pos_or_neg re hre h0 with ⟨_, _, hs⟩ | ⟨hlt, hs⟩
+      · simp [hs, evalP, Expr.mapNum, eval]
+      · simp [hs, evalP, Expr.mapNum, eval, L.negRe re hre hlt]
+  rcases plain_cases re hre with ⟨rfl, r1, r2, r3, r4⟩ | ⟨r1, r2, r3, r4, r5⟩ | ⟨r1, r2, r3, r4, r5⟩ <;>
+  rcases plain_cases im him with ⟨rfl, i1, i2, i3, i4⟩ | ⟨i1, i2, i3, i4, i5⟩ | ⟨i1, i2, i3, i4, i5⟩
+  all_goals simp only [numTree, r1, i1, r2, i2, Bool.and_self, Bool.and_false, Bool.false_and, if_true,
+    if_false, Bool.false_eq_true]
+  · rfl
+  · rfl
+  · have hlt : two63 < im := by
+      rcases plain_pos_or_neg im him (by intro h; subst h; simp [fZero] at i1) with ⟨_, _, hs⟩ | ⟨h, _⟩
+      · rw [hs] at i2; cases i2
+      · exact h
+    simp [evalP, Expr.mapNum, eval, L.negIm im him hlt]
+  · rfl
+  all_goals
+    have hre0 : re ≠ 0 := by intro h; subst h; simp [fZero] at r1
+  · -- x + yi
+    have him0 : im ≠ 0 := by intro h; subst h; simp [fZero] at i1
+    rcases plain_pos_or_neg im him him0 with ⟨hp, hlt, _⟩ | ⟨_, hs⟩
+    · simp [i3, evalP, Expr.mapNum, eval, calcInfix, L.addIm re im hre him hre0 hp hlt]
+    · rw [hs] at i2; cases i2
+  · -- x - yi
+    have him0 : im ≠ 0 := by intro h; subst h; simp [fZero] at i1
+    rcases plain_pos_or_neg im him him0 with ⟨_, _, hs⟩ | ⟨hlt, _⟩
+    · rw [hs] at i2; cases i2
+    · simp [i3, i5, evalP, Expr.mapNum, eval, calcInfix, L.subIm re im hre him hre0 hlt]
+  · -- -x
+    rcases plain_pos_or_neg re hre hre0 with ⟨_, _, hs⟩ | ⟨hlt, _⟩
+    · rw [hs] at r2; cases r2
+    · simp [evalP, Expr.mapNum, eval, L.negRe re hre hlt]
+  · -- -x + yi
+    have him0 : im ≠ 0 := by intro h; subst h; simp [fZero] at i1
+    rcases plain_pos_or_neg im him him0 with ⟨hp, hlt, _⟩ | ⟨_, hs⟩
+    · rcases plain_pos_or_neg re hre hre0 with ⟨_, _, hs⟩ | ⟨hlr, _⟩
+      · rw [hs] at r2; cases r2
+      · simp [i3, evalP, Expr.mapNum, eval, calcInfix, L.addIm re im hre him hre0 hp hlt, L.negRe re hre hlr]
+    · rw [hs] at i2; cases i2
+  · -- -x - yi
+    have him0 : im ≠ 0 := by intro h; subst h; simp [fZero] at i1
+    rcases plain_pos_or_neg im him him0 with ⟨_, _, hs⟩ | ⟨hlt, _⟩
+    · rw [hs] at i2; cases i2
+    · rcases plain_pos_or_neg re hre hre0 with ⟨_, _, hs⟩ | ⟨hlr, _⟩
+      · rw [hs] at r2; cases r2
+      · simp [i3, i5, evalP, Expr.mapNum, eval, calcInfix, L.subIm re im hre him hre0 hlt, L.negRe re hre hlr]
+
+/-- **The re-parsed tree denotes the same value** under every assignment of variables and memory. -/
+theorem eval_norm (L : LitLaws K den) (ρ : VarEnv K) (μ : MemEnv K) :
+    ∀ e : PExpr, finiteLits e = true → evalP den ρ μ (norm e) = evalP den ρ μ e := by
+  intro e
+  induction e with
+  | address r => intro _; rfl
+  | call f x ih =>
+    intro hf
+    have hx := ih (by simpa [finiteLits, allLits] using hf)
+    simp only [evalP, norm, Expr.mapNum, eval] at hx ⊢
+    rw [hx]
+  | bin l o r ihl ihr =>
+    intro hf
+    simp only [finiteLits, allLits, Bool.and_eq_true] at hf
+    have hl := ihl hf.1
+    have hr := ihr hf.2
+    simp only [evalP, norm, Expr.mapNum, eval] at hl hr ⊢
+    rw [hl, hr]
+  | number z =>
+    intro hf
+    simp only [finiteLits, allLits, Bool.and_eq_true] at hf
+    simp only [norm]
+    rw [eval_numTree L ρ μ z hf.1 hf.2]
+    rfl
+  | pi => intro _; rfl
+  | pre op x ih =>
+    intro hf
+    have hx := ih (by simpa [finiteLits, allLits] using hf)
+    cases op with
+    | plus =>
+      simp only [evalP, norm, Expr.mapNum, eval] at hx ⊢
+      rw [hx]
+      cases eval ρ μ (Expr.mapNum den x) <;> rfl
+    | minus =>
+      simp only [evalP, norm, Expr.mapNum, eval] at hx ⊢
+      rw [hx]
+  | var x => intro _; rfl
+
+end Values
+
 end QV.ExprRoundTrip
